@@ -9,3 +9,16 @@ mod utils;
 pub mod instructions;
 
 pub type Result<T> = core::result::Result<T, errors::UnifiedError>;
+
+// Verification hook H3 (off by default): the memory-mapped account views are private to this module; under
+// `--cfg orca_so_whirlpools_verif` they are re-exported so that an external harness can drive the Pinocchio
+// accessors directly on raw account bytes. Nothing else changes.
+#[cfg(orca_so_whirlpools_verif)]
+pub mod verif_reexport {
+    pub use super::errors::UnifiedError;
+    pub use super::state::whirlpool::tick_array::dynamic_tick_array::MemoryMappedDynamicTickArray;
+    pub use super::state::whirlpool::tick_array::fixed_tick_array::MemoryMappedFixedTickArray;
+    pub use super::state::whirlpool::tick_array::tick::MemoryMappedTick;
+    pub use super::state::whirlpool::tick_array::{TickArray, TickUpdate};
+    pub use super::state::whirlpool::{MemoryMappedPosition, MemoryMappedWhirlpool};
+}
